@@ -5,6 +5,7 @@ cd "$(dirname "$0")"
 export CARGO_NET_OFFLINE=true
 python3 tools/extract_consts.py
 python3 tools/extract_limiter.py
+python3 tools/extract_stores.py
 ( cd coq && coq_makefile -f _CoqProject -o Makefile && timeout 3000 make -j16 >/dev/null )
 mkdir -p .cache
 for crate in lib srv; do
